@@ -64,7 +64,7 @@ struct XdhSim {
     struct Peer { uint8_t sk[32]; bool sk_valid = true; secp256k1_pubkey pk; ref::Pt pt; Bytes mine; bool done = false; int ret = -1; Bytes out; bool got_intact = false; int party = 0; };
     struct Sess { int mode = 0; int hasher = 0; int fmt[2] = {0, 0}; Peer peer[2]; uint8_t salt[32]; uint8_t prefix[64]; bool role_confusion = false; int create_via = 0; };
     std::vector<Sess> ss;
-    uint8_t node_prefix[64];
+    uint8_t node_prefix[64] = {0x5c, 0x36};
     XdhSim(const Plan &p_, Result &r_) : p(p_), r(r_) {}
     void fresh32(uint8_t *out) { uint8_t b[16]; for (int i = 0; i < 8; i++) { b[i] = (uint8_t)(inseed >> (8 * i)); b[8 + i] = (uint8_t)(draw >> (8 * i)); } draw++; ref::sha256(b, 16, out); }
     const Op *find(const char *kname, int s, int who = -1) const { for (const Op &o : p.ops) if (o.k == kname && o.arg(0) == s && (who < 0 || o.arg(1) == who)) return &o; return nullptr; }
@@ -87,7 +87,7 @@ struct XdhSim {
         MonMark mk = mon_mark();
         int ret;
         if (S.hasher == H_DEFAULT) ret = L01(secp256k1_ecdh(frugal_ctx(use_static, ctx, "secp256k1_ecdh"), out.p(), &peer, P.sk, NULL, NULL));
-        else if (S.hasher == H_EXPLICIT || S.hasher == H_PREFIX || S.hasher == H_DELEG_PREFIX || S.hasher == H_DELEG_BIP324) ret = L01(secp256k1_ecdh(frugal_ctx(use_static, ctx, "secp256k1_ecdh"), out.p(), &peer, P.sk, secp256k1_ecdh_hash_function_sha256, NULL));
+        else if (S.hasher == H_EXPLICIT || S.hasher == H_PREFIX || S.hasher == H_DELEG_PREFIX || S.hasher == H_DELEG_BIP324) ret = L01(secp256k1_ecdh(frugal_ctx(use_static, ctx, "secp256k1_ecdh"), out.p(), &peer, P.sk, secp256k1_ecdh_hash_function_sha256, S.hasher == H_EXPLICIT ? (void *)node_prefix : NULL));
         else if (S.hasher == H_TWOSTEP) ret = L01(secp256k1_ecdh(frugal_ctx(use_static, ctx, "secp256k1_ecdh"), out.p(), &peer, P.sk, twostep_ecdh, &ctl));
         else ret = L01(secp256k1_ecdh(frugal_ctx(use_static, ctx, "secp256k1_ecdh"), out.p(), &peer, P.sk, custom_ecdh, &ctl));
         r.cmp();
@@ -131,7 +131,8 @@ struct XdhSim {
         Buf out(32);
         mk = mon_mark();
         int ret;
-        if (S.hasher == H_DEFAULT || S.hasher == H_EXPLICIT) ret = L01(secp256k1_ellswift_xdh(frugal_ctx(use_static, ctx, "secp256k1_ellswift_xdh"), out.p(), ea, eb, P.sk, party_arg, secp256k1_ellswift_xdh_hash_function_bip324, NULL));
+        // the BIP-324 hasher "ignores the data argument": half of these sessions hand it whatever the node's prefix buffer last held
+        if (S.hasher == H_DEFAULT || S.hasher == H_EXPLICIT) ret = L01(secp256k1_ellswift_xdh(frugal_ctx(use_static, ctx, "secp256k1_ellswift_xdh"), out.p(), ea, eb, P.sk, party_arg, secp256k1_ellswift_xdh_hash_function_bip324, S.hasher == H_EXPLICIT ? (void *)node_prefix : NULL));
         else if (S.hasher == H_PREFIX) { memcpy(node_prefix, S.prefix, 64);   // the node keeps one buffer for the per-session prefix and refills it before each call
             ret = L01(secp256k1_ellswift_xdh(frugal_ctx(use_static, ctx, "secp256k1_ellswift_xdh"), out.p(), ea, eb, P.sk, party_arg, secp256k1_ellswift_xdh_hash_function_prefix, node_prefix)); }
         else if (S.hasher == H_DELEG_PREFIX || S.hasher == H_DELEG_BIP324) { DelegCtl dc{S.prefix, S.hasher == H_DELEG_BIP324};
